@@ -330,6 +330,10 @@ def checkC05 (h : History) (obs : List RunObs) : Option String :=
               some s!"C05 run {k}: {m.id.name} deleted before its dependent {x.name} was deleted"
             else if !dry && lastWaitBefore o.events m.evIdx x ≠ some "Successful" then
               some s!"C05 run {k}: {m.id.name} deleted before its dependent {x.name} was observed gone"
+            -- … and the events must be true: the dependent is not in the store any more (or is on its way out) when the
+            -- dependency's delete is answered
+            else if !dry && m.result = "ok" && (snapFind m.snap x).any (fun l => !l.deleting) then
+              some s!"C05 run {k}: {m.id.name} deleted while its dependent {x.name} is still live in the cluster"
             else none
         else none
       bad
@@ -424,7 +428,11 @@ def checkC12 (h : History) (obs : List RunObs) : Option String :=
       let badReason := if o.cancelCalled && es.getLast? = some (Ev.error "watcher")
         then some "the caller's context was cancelled, yet the run ends with the watcher's error instead of the context error"
         else if es.getLast? = some (Ev.error "cause")
-        then some "the run ends with the cause the caller cancelled its context with, not with the context error" else none
+        then some "the run ends with the cause the caller cancelled its context with, not with the context error"
+        -- the context was cancelled while the run was in progress (the script cancels before the sync event, while a request of
+        -- some phase is in flight, or during a wait): whatever phase that was — the last one included — the run reports it
+        else if o.cancelCalled && r.opts.dry = .none && !(es.any fun e => match e with | .error _ => true | _ => false)
+        then some "the caller's context was cancelled while the run was in progress, yet the run ends without an error event" else none
       let early := if "early-timeout".isPrefixOf o.anomaly then some o.anomaly
         else if (o.anomaly.splitOn "after the context was cancelled").length > 1 then some o.anomaly else none
       (badTimeout <|> badCancel <|> badReason <|> early).map (fun s => s!"C12 run {k}: {s}")
